@@ -61,6 +61,8 @@ def merge_consts(fields: List[Field]) -> List[Field]:
 
 
 def _understood(lay: List[Field]) -> bool:
+    if len(lay) >= 2:
+        return True  # a concatenation of several parts is structure even when every part is an opaque call
     for f in lay:
         if f.kind in ("int", "const", "zeros"):
             return True
